@@ -7,6 +7,8 @@ Proofs: coq/theories/Props/C12.v over VM/Codec.v (byte-level model of bincode's 
    prefix of an encoding is a decoding error, encodings are prefix-free/injective, unknown variant index
    is an error; the decoder (like the real loader) accepts dangling string/function/jump references
    (`_refuted` witness = known finding load-crash:corrupt:instr-index:*), the checked decoder does not.
+   C12_load_behaves_model_vm: decoding an encoding and running it on C01's model VM (VM/Machine.v, skeleton
+   embedded by VM/LoadModel.v) = running the encoded function.
 C: harness/src/bin/c12.rs
    (2) the property itself on generated programs and corpus/std modules: compile_to_bytecode to JSON,
        bincode-varint, bincode-fixed; load_bytecode / Precompiled::run_expr into the same and a fresh VM;
@@ -14,9 +16,12 @@ C: harness/src/bin/c12.rs
    (3) the extracted model's enc_fn bytes must equal what bincode writes for the same skeleton, and those
        bytes must occur in order inside the real serialisation of the module; every real skeleton must pass
        the model's range check (wf_fnb) and reference check (refs_ok);
+   (5) the REAL module bytes (bincode fixed + varint slices; JSON skeleton) are decoded by the extracted codec and
+       run on the extracted model VM (coq/extract/c12vm): outcome = source run = real precompiled run (three-way);
    (4) truncations and single-field corruptions loaded in child processes: Err or clean runtime error,
        never panic/abort/hang.
 """
+import hashlib
 import json
 import os
 
@@ -27,7 +32,8 @@ def tie(ctx, tier_override=None, tag="tie", extra=()):
     """Run the harness and the model.  Returns (ran, n_skeletons, skeleton diffs, findings)."""
     out_dir = os.path.join(ctx.run_dir, tag)
     os.makedirs(out_dir, exist_ok=True)
-    for f in ("model_in.txt", "impl_out.txt", "cases.txt", "findings.jsonl", "stats.json", "model_out.txt"):
+    for f in ("model_in.txt", "impl_out.txt", "cases.txt", "findings.jsonl", "stats.json", "model_out.txt",
+              "vm_in.txt", "vm_expect.txt", "vm_cases.txt", "vm_out.txt"):
         try:
             os.remove(os.path.join(out_dir, f))
         except FileNotFoundError:
@@ -70,7 +76,113 @@ def tie(ctx, tier_override=None, tag="tie", extra=()):
         {"source": cases[i][:600], "model": mo[i][:300]} for i in (0, len(cases) // 2) if i < len(cases) and i < len(mo)
     ]
     res = [(cases[i] if i < len(cases) else "?", m, im) for (i, m, im) in diffs]
+    ctx.last_out_dir = out_dir
     return True, n, res, findings
+
+
+def untype(s):
+    """untyped view of a canonical value: `(rcd (l v)...)` -> `(data 0 v...)` (the real value of a module without
+    a static MiniGluon type is rendered without field names)"""
+    toks = s.replace("(", " ( ").replace(")", " ) ").split()
+    pos = [0]
+
+    def parse():
+        t = toks[pos[0]]
+        pos[0] += 1
+        if t != "(":
+            return t
+        items = []
+        while toks[pos[0]] != ")":
+            items.append(parse())
+        pos[0] += 1
+        return items
+
+    def conv(x):
+        if isinstance(x, list):
+            if x and x[0] == "rcd":
+                return ["data", "0"] + [conv(f[1]) if isinstance(f, list) and len(f) == 2 else conv(f) for f in x[1:]]
+            return [conv(y) for y in x]
+        return x
+
+    def show(x):
+        return "(" + " ".join(show(y) for y in x) + ")" if isinstance(x, list) else x
+
+    try:
+        return show(conv(parse()))
+    except Exception:
+        return s
+
+
+def vm_norm(s, typed):
+    s = s.replace("(rcd)", "(data 0)")
+    return s if typed else untype(s)
+
+
+def vm_tie(ctx, out_dir):
+    """(5) the REAL serialised module (bincode fixed + varint slices, JSON skeleton) decoded by the extracted codec and
+    run on the extracted model VM (coq/extract/c12vm) vs the source run vs the real precompiled run."""
+    vin = os.path.join(out_dir, "vm_in.txt")
+    if not os.path.exists(vin):
+        return False, []
+    model = ctx.build_model("c12vm")
+    if model is None:
+        return False, []
+    vout = os.path.join(out_dir, "vm_out.txt")
+    if not ctx.run_model(model, vin, vout, timeout=1500):
+        return False, []
+    vo = common.read_lines(vout)
+    ex = common.read_lines(os.path.join(out_dir, "vm_expect.txt"))
+    cs = common.read_lines(os.path.join(out_dir, "vm_cases.txt"))
+    executed = agree = unsupported_instr = fuel = unmodelled_globals = 0
+    divs = []
+    for i, v in enumerate(vo):
+        if i >= len(ex) or i >= len(cs):
+            break
+        src, _, pre = ex[i].partition("\t")
+        fam, typed, globs, source = (cs[i].split("\t", 3) + ["", "", "", ""])[:4]
+        typed = typed == "typed"
+        source = source.replace("\\n", "\n")
+        h = hashlib.sha1(source.encode()).hexdigest()[:12]
+        if v.startswith("(skip"):
+            unsupported_instr += 1
+            continue
+        if v == "(fuel)" or v.startswith("(err model"):
+            fuel += 1
+            continue
+        if v.startswith("(stuck") and globs != "globals-modelled":
+            unmodelled_globals += 1      # the module calls into a global the model VM has no built-in for
+            continue
+        if "shape-mismatch" in src:
+            continue
+        executed += 1
+        if v.startswith("(bad"):
+            divs.append(("precompiled:model-vm:decode:" + h, v, src, pre, source))
+            continue
+        a, b, c = vm_norm(v, typed), vm_norm(src, typed), vm_norm(pre, typed)
+        if a == b == c:
+            agree += 1
+        elif b != c:
+            # source and real precompiled run differ: that is `precompiled-differs` (reported by the harness); say on
+            # which side the model VM is
+            side = "agrees-with-source" if a == b else "agrees-with-precompiled" if a == c else "third-outcome"
+            divs.append(("precompiled:model-vm:real-vm-differs:%s:%s" % (side, h), v, src, pre, source))
+        else:
+            kind = "stuck" if v.startswith("(stuck") else "effect-log" if a.split("(log")[0] == b.split("(log")[0] else "outcome"
+            divs.append(("precompiled:model-vm:%s:%s" % (kind, h), v, src, pre, source))
+    total = len(vo)
+    ctx.coverage["model_vm_on_decoded_real_modules"] = {
+        "modules": total,
+        "executed_by_model_vm": executed,
+        "three_way_agreement (model VM on decoded module = source run = real precompiled run)": agree,
+        "not_executed:unsupported_instruction (float arithmetic, poly variants)": unsupported_instr,
+        "not_executed:calls_a_global_without_model_builtin (prelude/std modules)": unmodelled_globals,
+        "not_executed:out_of_fuel": fuel,
+        "executed_fraction": round(executed / total, 4) if total else 0.0,
+        "divergences": len(divs),
+    }
+    ctx.coverage["traces_validated_against_impl"] = ctx.coverage.get("traces_validated_against_impl", 0) + executed
+    ctx.coverage["evaluations"] = ctx.coverage.get("evaluations", 0) + total
+    return True, divs
 
 
 def report(ctx, diffs, findings):
@@ -103,6 +215,27 @@ def run(ctx):
     ctx.obligations.append(common.Obligation(
         "correspondence:load-robustness", "correspondence", ran and not bad_rb,
         "%s truncated/corrupted loads in child processes; %d distinct failing keys" % (ctx.coverage.get("robustness_loads_in_child_processes", 0), len(bad_rb))))
+    vm_ran, vm_divs = vm_tie(ctx, ctx.last_out_dir) if ran else (False, [])
+    mv = ctx.coverage.get("model_vm_on_decoded_real_modules", {})
+    ctx.obligations.append(common.Obligation(
+        "correspondence:model-vm-runs-decoded-real-module", "correspondence",
+        vm_ran and not vm_divs and mv.get("executed_fraction", 0) >= 0.85,
+        "%s real modules decoded by the extracted codec; %s executed on the model VM (%.1f%%), %s agree three-way with the source "
+        "run and the real precompiled run; %d divergences"
+        % (mv.get("modules", 0), mv.get("executed_by_model_vm", 0), 100 * mv.get("executed_fraction", 0),
+           mv.get("three_way_agreement (model VM on decoded module = source run = real precompiled run)", 0), len(vm_divs))))
+    for (key, v, src, pre, source) in vm_divs[:10]:
+        # C12_load_behaves_model_vm: running the decoded skeleton is running the encoded function, so a different
+        # outcome means the real loader/VM does something else with these bytes than the model VM does.
+        ctx.violation(key, "the real serialised module, decoded by the model codec and run on the model VM, does not behave like "
+                      "the source run / the real precompiled run",
+                      case={"check": "roundtrip", "source": source, "format": "bincode-fixed", "api": "run_expr", "vm": "fresh", "prelude": False},
+                      expected="source: %s | real precompiled: %s" % (src[:900], pre[:900]), observed="model VM: " + v[:1500])
+    if ran and not vm_ran:
+        ctx.violation("obligation:correspondence:model-vm-runs-decoded-real-module", "the model-VM tie could not be run (coq/extract/c12vm)",
+                      obligation="correspondence:model-vm-runs-decoded-real-module", no_input=True)
+    ctx.trusted.append("C01's model VM coq/theories/VM/Machine.v (interpreter for real bytecode, tied to the real VM by ./check C01) and "
+                       "coq/extract/c12vm/driver.ml (extern table, record-name and globals side tables, printing)")
     ctx.trusted.append("translators harness/src/tr/instr.rs + instr_codec.rs (syn): enum Instruction variants, field types, serde attributes")
     ctx.trusted.append("harness/src/bin/c12.rs: program generator gvh::mg, printers, outcome canonicaliser, JSON skeleton reader, "
                        "corruption generators, child-process runner with watchdog; coq/extract/c12/driver.ml (name lookup, number parsing)")
